@@ -13,7 +13,7 @@
      P_current s                   P_fixed s and, if the current rule leaves s unquoted: no TAB, first
                                    character not one of _ # $ [ ] ; and no reserved word at the start *)
 From Coq Require Import String Ascii List Bool Arith.
-From Verif.C14 Require Import Cif11 Writer ProofsLex ProofsDoc ProofsRules ProofsMisc Check.
+From Verif.C14 Require Import Cif11 Writer ProofsChar ProofsLex ProofsDoc ProofsRules ProofsMisc Check.
 From Run Require Import GenCorpus Tie.
 Import ListNotations.
 
